@@ -81,8 +81,49 @@ def describe_syn(o, v):
     return "first difference at %d: expected %s observed %s | text: %r" % (at, e[at - 1:at], b[at - 1:at], o["text"][:300])
 
 
+def lex_family(ctx, prop):
+    """LexFam.tla -> the real lexer and parser -> LexTrace.tla (characters -> tokens -> accepted or not)"""
+    from .checks_store import gen_lines
+    fam = gen_lines(ctx, "LexFam", "LexFam_%s.cfg" % ctx.tier, "LexFam.tla: every text of up to N pieces with Lexer!Lex's tokens and errors and Grammar!Accepts", timeout=3000)
+    gp = os.path.join(ctx.work, "lexfam.ndjson")
+    open(gp, "w").write("\n".join(fam) + "\n")
+    op = os.path.join(ctx.work, "lexfam_obs.ndjson")
+    s1 = ctx.vh_json(["lex-check", gp, op], timeout=3600)
+    r = ctx.tlc_trace("LexTrace", "LexTrace_%s.cfg" % prop, op, label="LexTrace judges the real lexer / parser on the LexFam texts", timeout=3600)
+    ctx.cov["evaluations"] += s1["cases"]
+    ctx.cov["distinct_nontrivial"] += s1["with_lexer_errors"]
+    ctx.cov["traces_validated_against_impl"] += s1["cases"]
+    ctx.cov["lexer_family_texts"] = s1["cases"]
+    ctx.cov["samples"] += (s1["samples"] or [])[:1]
+    viols = [v for v in r["viols"] if v["prop"] == prop]
+    seen = set()
+    for v in viols:
+        if v["what"] in seen or len(ctx.violations) >= 4:
+            continue
+        inp = json.loads(fam[v["id"]])
+        inp["variant"] = v["id"]
+        rp = dict(kind="lex", property=prop, input=inp)
+        if confirm_lex(ctx, rp):
+            seen.add(v["what"])
+            o = rp["observed_again"][0]
+            ctx.add_violation("%s: %s | text: %r | expected tokens %s errors %s | observed %s" % (prop, v["what"], o["text"], json.dumps(o["exptoks"])[:200], json.dumps(o["experrs"])[:100], json.dumps(o["obs"])[:300]), rp)
+        else:
+            raise Infra("candidate did not reproduce: %s" % v)
+
+
+def confirm_lex(ctx, rp):
+    p = os.path.join(ctx.work, "cand%d" % len(os.listdir(ctx.work)))
+    open(p + ".in", "w").write(json.dumps(rp["input"]) + "\n")
+    ctx.vh_json(["lex-check", p + ".in", p + ".out"])
+    r = ctx.tlc_trace("LexTrace", "LexTrace_%s.cfg" % rp["property"], p + ".out", label="confirmation")
+    rp["observed_again"] = read_ndjson(p + ".out")
+    return [v for v in r["viols"] if v["prop"] == rp["property"]]
+
+
 def c15(ctx, cfg="FrontTrace_C15.cfg", prop="C15"):
     ctx.build()
+    if prop == "C15":
+        lex_family(ctx, "C15")
     nt, no = (250, 8) if ctx.tier == "quick" else (1500, 40)
     gp, n1 = syntax_gen(ctx, ctx.seed, nt, 3, "Syntax_seeded.cfg", "seeded")
     op = os.path.join(ctx.work, "obs_seeded.ndjson")
@@ -214,6 +255,8 @@ def known_panic(prop, panic_msg):
 def edit_check(ctx, prop, which):
     """Edit.tla documents through the real parser (C14) or the editor analyses (C18)"""
     ctx.build()
+    if prop == "C14":
+        lex_family(ctx, "C14")
     nt = 8 if ctx.tier == "quick" else 40
     cfgs = [("Edit_quick.cfg", nt, 2)] if ctx.tier == "quick" else [("Edit_thorough.cfg", nt, 2), ("Edit_double.cfg", 6, 1)]
     witness = None
@@ -230,7 +273,7 @@ def edit_check(ctx, prop, which):
             for k in load_known():
                 if k.get("status") == "known" and (k.get("property") == prop or prop in k.get("also", [])) and k.get("witness"):
                     t = k["witness"]
-                    lines.append(json.dumps(dict(id=-1, text=t, lines=[len(x) for x in t.split("\n")], lexok=False, accepts=False, ntoks=0)))
+                    lines.append(json.dumps(dict(id=-1, text=t, lines=[len(x) for x in t.split("\n")], lexok=False, accepts=False, unspec=True, ntoks=0)))
             if lines:
                 open(gp, "a").write("\n".join(lines) + "\n")
             witness = True
@@ -257,7 +300,7 @@ def edit_check(ctx, prop, which):
                 continue
             if v["what"] in seen or len(ctx.violations) >= 4:
                 continue
-            rp = dict(kind="edit", property=prop, which=which, case=dict(id=o["id"], text=o["text"], lines=o["lines"], lexok=o["lexok"], accepts=o["accepts"], ntoks=0))
+            rp = dict(kind="edit", property=prop, which=which, case=dict(id=o["id"], text=o["text"], lines=o["lines"], lexok=o["lexok"], accepts=o["accepts"], unspec=o.get("unspec", False), ntoks=0))
             if confirm_edit(ctx, rp):
                 seen.add(v["what"])
                 ctx.add_violation("%s: %s | observed: %s | text: %r" % (prop, v["what"], json.dumps(o["obs"])[:300], o["text"][:300]), rp)
